@@ -265,7 +265,7 @@ pub fn c18_args_case(ctx: &Ctx, env: &RealEnv, dir: &Path, case: u64, seed: u64,
     opts.max_steps = 8;
     opts.defaults = rng.chance(1, 2);
     let base = gen_project(&mut rng, &opts);
-    let variant = rng.below(3);
+    let variant = rng.below(5);
     // configuration A: plain; configuration B: with the option
     let twin = dir.with_file_name("twin");
     let mut runs: Vec<(BTreeSet<String>, Option<i32>, String, Vec<String>)> = Vec::new();
@@ -307,6 +307,27 @@ pub fn c18_args_case(ctx: &Ctx, env: &RealEnv, dir: &Path, case: u64, seed: u64,
         }
         std::fs::create_dir_all(&projdir).unwrap();
         let mut w = new_world(env, &projdir, p, &mut r2);
+        let mut want_db = match &w.proj.builddir {
+            Some(b) => format!("{}/.n2_db", b),
+            None => ".n2_db".to_string(),
+        };
+        if cfg == 1 && variant >= 3 {
+            // `builddir` bound in another file: a subninja file's binding is private to that file (the log
+            // stays where it was), an included file's binding is the including scope's
+            let kw = if variant == 3 { "subninja" } else { "include" };
+            let mut text = std::fs::read_to_string(projdir.join(&w.proj.manifest)).unwrap();
+            let at_top = r2.chance(1, 2);
+            if at_top {
+                text = format!("{} vendored.ninja\n{}", kw, text);
+            } else {
+                text.push_str(&format!("{} vendored.ninja\n", kw));
+            }
+            std::fs::write(projdir.join(&w.proj.manifest), text).unwrap();
+            std::fs::write(projdir.join("vendored.ninja"), "builddir = vend\nrule vendored_cc\n  command = true\n").unwrap();
+            if variant == 4 {
+                want_db = "vend/.n2_db".to_string();
+            }
+        }
         // new_world clears projdir only; the harness dir layout is root/... ; plan lives in projdir
         scan(&mut w);
         write_plan(env, &w, &inv, &mut r2);
@@ -330,18 +351,14 @@ pub fn c18_args_case(ctx: &Ctx, env: &RealEnv, dir: &Path, case: u64, seed: u64,
         let mut dbs = Vec::new();
         find_files(&root, ".n2_db", &mut dbs);
         let dbs: Vec<String> = dbs.iter().map(|p| p.strip_prefix(&projdir).map(|q| q.to_string_lossy().into_owned()).unwrap_or_else(|_| p.to_string_lossy().into_owned())).collect();
-        let want_db = match &w.proj.builddir {
-            Some(b) => format!("{}/.n2_db", b),
-            None => ".n2_db".to_string(),
-        };
         if dbs != vec![want_db.clone()] {
             rep.violation("log-location", &format!("log found at {:?}, expected exactly {:?} (relative to the working directory)", dbs, want_db), J::obj().with("case", J::i(case)).with("variant", J::i(variant)).with("pre_args", J::strs(inv.pre_args.iter().cloned())));
         }
         runs.push((out.started().into_iter().collect(), out.exit, out.last_line(), checks));
     }
-    rep.count(&format!("args_variant_{}", ["C", "f", "builddir"][variant]), 1);
+    rep.count(&format!("args_variant_{}", ["C", "f", "builddir", "subninja_builddir", "include_builddir"][variant]), 1);
     let (a, b) = (&runs[0], &runs[1]);
-    let mk = || J::obj().with("case", J::i(case)).with("variant", J::s(["-C vs cd", "-f vs build.ninja", "builddir vs none"][variant])).with("project", base.to_json()).with("targets", J::strs(targets.iter().cloned())).with("plain", J::s(format!("{:?}", a))).with("with_option", J::s(format!("{:?}", b)));
+    let mk = || J::obj().with("case", J::i(case)).with("variant", J::s(["-C vs cd", "-f vs build.ninja", "builddir vs none", "builddir bound in a subninja file vs none", "builddir bound in an included file vs none"][variant])).with("project", base.to_json()).with("targets", J::strs(targets.iter().cloned())).with("plain", J::s(format!("{:?}", a))).with("with_option", J::s(format!("{:?}", b)));
     if a.0 != b.0 || a.1 != b.1 || a.2 != b.2 {
         rep.violation("option-changes-behaviour", &format!("started/exit/summary differ: {:?} vs {:?}", a, b), mk());
     }
